@@ -105,6 +105,11 @@ func (s *Service) proxyToSingleEndpoint(ctx context.Context, w http.ResponseWrit
 	resp, err := transport.RoundTrip(proxyReq)
 	stats.BackendResponseMs = time.Since(backendStart).Milliseconds()
 
+	if err == nil && (resp.StatusCode < 100 || resp.StatusCode > 999) {
+		// net/http refuses to relay such a status line (WriteHeader panics): an unusable answer
+		resp.Body.Close()
+		err = fmt.Errorf("backend answered with invalid status code %d", resp.StatusCode)
+	}
 	if err != nil {
 		if cb != nil {
 			cb.RecordFailure()
